@@ -558,13 +558,19 @@ def classify_outcome(rec: Rec, handler) -> dict:
     return {"kind": "failed", "exc": exc}
 
 
-async def run_program(spec: dict, rec: Rec, *, runtime=None, retry_builder=None, wf_kwargs=None, probe=False, ctx_factory=None, horizon=None, start=True, settle=5.0):
+async def run_program(spec: dict, rec: Rec, *, runtime=None, retry_builder=None, wf_kwargs=None, probe=False, ctx_factory=None, horizon=None, start=True, settle=5.0, wf_factory=None):
     """Run a generated program to completion or to the virtual horizon."""
     global CUR
     CUR = rec
     rec.probe = probe
     runtime = runtime or make_runtime()
-    wf = build_workflow(spec, runtime=runtime, retry_builder=retry_builder, wf_kwargs=wf_kwargs)
+
+    def _build():
+        if wf_factory is not None:
+            return wf_factory(spec, runtime)
+        return build_workflow(spec, runtime=runtime, retry_builder=retry_builder, wf_kwargs=wf_kwargs)
+
+    wf = _build()
     rec.wf = wf
     H = horizon if horizon is not None else horizon_of(spec)
     rec.horizon = H
@@ -601,7 +607,7 @@ async def run_program(spec: dict, rec: Rec, *, runtime=None, retry_builder=None,
             for inv in rec.inv:
                 if inv["exit"] is None:
                     inv["exit"], inv["t_out"], inv["s_out"] = "aborted", VClock.t, rec.nseq()
-            wf = build_workflow(spec, runtime=runtime, retry_builder=retry_builder, wf_kwargs=wf_kwargs)
+            wf = _build()
             rec.wf = wf
             ctx2 = m["Context"].from_dict(wf, d)
             handler = wf.run(ctx=ctx2)
